@@ -14,7 +14,45 @@ pub struct ThreadRng {
 }
 
 pub mod rngs {
+    pub use super::SeededRng as SmallRng;
+    pub use super::SeededRng as StdRng;
     pub use super::ThreadRng;
+    /// The operating system's generator: entropy, i.e. the simulator's decision.
+    #[derive(Clone, Copy, Debug, Default)]
+    pub struct OsRng;
+    impl super::RngCore for OsRng {}
+    impl super::CryptoRng for OsRng {}
+    pub mod mock {
+        /// `StepRng`: deterministic by contract
+        #[derive(Clone, Debug)]
+        pub struct StepRng {
+            v: u64,
+            a: u64,
+        }
+        impl StepRng {
+            pub fn new(initial: u64, increment: u64) -> Self {
+                StepRng { v: initial, a: increment }
+            }
+        }
+        impl super::super::RngCore for StepRng {
+            fn next_u64(&mut self) -> u64 {
+                let r = self.v;
+                self.v = self.v.wrapping_add(self.a);
+                r
+            }
+            fn next_u32(&mut self) -> u32 {
+                self.next_u64() as u32
+            }
+            fn __outcome(&mut self) -> simctx::Outcome {
+                let r = self.v;
+                self.v = self.v.wrapping_add(self.a);
+                simctx::Outcome::U((r >> 11) as f64 / (1u64 << 53) as f64)
+            }
+            fn __is_entropy(&self) -> bool {
+                false
+            }
+        }
+    }
 }
 
 #[allow(deprecated)]
@@ -63,7 +101,7 @@ fn next_down(x: f64) -> f64 {
     }
 }
 
-fn sample_f64(low: f64, high: f64, inclusive: bool) -> f64 {
+fn sample_f64<R: RngCore + ?Sized>(rng: &mut R, low: f64, high: f64, inclusive: bool) -> f64 {
     if inclusive {
         assert!(low <= high, "cannot sample empty range");
     } else {
@@ -71,7 +109,7 @@ fn sample_f64(low: f64, high: f64, inclusive: bool) -> f64 {
     }
     assert!(low.is_finite() && high.is_finite(), "Uniform::new called with non-finite boundaries");
     let top = if inclusive { high } else { next_down(high) };
-    let v = match draw() {
+    let v = match rng.__outcome() {
         Outcome::Low => low,
         Outcome::HighMinus => top,
         Outcome::Abs(x) if x >= low && x <= top => x,
@@ -88,36 +126,36 @@ fn sample_f64(low: f64, high: f64, inclusive: bool) -> f64 {
     }
 }
 
-fn unit() -> f64 {
-    sample_f64(0.0, 1.0, false)
+fn unit<R: RngCore + ?Sized>(rng: &mut R) -> f64 {
+    sample_f64(rng, 0.0, 1.0, false)
 }
 
 /// Ranges a value can be sampled from.
 pub trait SampleRange<T> {
-    fn sample_single(self) -> T;
+    fn sample_single<R: RngCore + ?Sized>(self, rng: &mut R) -> T;
     fn is_empty(&self) -> bool;
 }
 
 impl SampleRange<f64> for Range<f64> {
-    fn sample_single(self) -> f64 {
-        sample_f64(self.start, self.end, false)
+    fn sample_single<R: RngCore + ?Sized>(self, rng: &mut R) -> f64 {
+        sample_f64(rng, self.start, self.end, false)
     }
     fn is_empty(&self) -> bool {
         !(self.start < self.end)
     }
 }
 impl SampleRange<f64> for RangeInclusive<f64> {
-    fn sample_single(self) -> f64 {
-        sample_f64(*self.start(), *self.end(), true)
+    fn sample_single<R: RngCore + ?Sized>(self, rng: &mut R) -> f64 {
+        sample_f64(rng, *self.start(), *self.end(), true)
     }
     fn is_empty(&self) -> bool {
         !(self.start() <= self.end())
     }
 }
 impl SampleRange<f32> for Range<f32> {
-    fn sample_single(self) -> f32 {
+    fn sample_single<R: RngCore + ?Sized>(self, rng: &mut R) -> f32 {
         assert!(self.start < self.end, "cannot sample empty range");
-        let v = sample_f64(self.start as f64, self.end as f64, false) as f32;
+        let v = sample_f64(rng, self.start as f64, self.end as f64, false) as f32;
         if v >= self.end {
             f32::from_bits(self.end.to_bits().wrapping_sub(1)).max(self.start)
         } else {
@@ -129,8 +167,8 @@ impl SampleRange<f32> for Range<f32> {
     }
 }
 impl SampleRange<f32> for RangeInclusive<f32> {
-    fn sample_single(self) -> f32 {
-        let v = sample_f64(*self.start() as f64, *self.end() as f64, true) as f32;
+    fn sample_single<R: RngCore + ?Sized>(self, rng: &mut R) -> f32 {
+        let v = sample_f64(rng, *self.start() as f64, *self.end() as f64, true) as f32;
         v.clamp(*self.start(), *self.end())
     }
     fn is_empty(&self) -> bool {
@@ -141,29 +179,29 @@ impl SampleRange<f32> for RangeInclusive<f32> {
 macro_rules! int_ranges {
     ($($t:ty),*) => {$(
         impl SampleRange<$t> for Range<$t> {
-            fn sample_single(self) -> $t {
+            fn sample_single<R: RngCore + ?Sized>(self, rng: &mut R) -> $t {
                 assert!(self.start < self.end, "cannot sample empty range");
                 let span = (self.end as i128 - self.start as i128) as f64;
-                let k = (unit() * span).floor() as i128;
+                let k = (unit(rng) * span).floor() as i128;
                 let k = k.clamp(0, (self.end as i128 - self.start as i128) - 1);
                 (self.start as i128 + k) as $t
             }
             fn is_empty(&self) -> bool { !(self.start < self.end) }
         }
         impl SampleRange<$t> for RangeInclusive<$t> {
-            fn sample_single(self) -> $t {
+            fn sample_single<R: RngCore + ?Sized>(self, rng: &mut R) -> $t {
                 assert!(self.start() <= self.end(), "cannot sample empty range");
                 let span = (*self.end() as i128 - *self.start() as i128 + 1) as f64;
-                let k = (unit() * span).floor() as i128;
+                let k = (unit(rng) * span).floor() as i128;
                 let k = k.clamp(0, *self.end() as i128 - *self.start() as i128);
                 (*self.start() as i128 + k) as $t
             }
             fn is_empty(&self) -> bool { !(self.start() <= self.end()) }
         }
         impl Standard for $t {
-            fn standard() -> $t {
-                let hi = (unit() * 4294967296.0) as u64;
-                let lo = (unit() * 4294967296.0) as u64;
+            fn standard<R: RngCore + ?Sized>(rng: &mut R) -> $t {
+                let hi = (unit(rng) * 4294967296.0) as u64;
+                let lo = (unit(rng) * 4294967296.0) as u64;
                 ((hi << 32) | lo) as $t
             }
         }
@@ -173,16 +211,16 @@ int_ranges!(u8, u16, u32, u64, usize, i8, i16, i32, i64, isize);
 
 /// Types with a "standard" distribution (`rng.gen()` / `rng.random()`).
 pub trait Standard {
-    fn standard() -> Self;
+    fn standard<R: RngCore + ?Sized>(rng: &mut R) -> Self;
 }
 impl Standard for f64 {
-    fn standard() -> f64 {
-        unit()
+    fn standard<R: RngCore + ?Sized>(rng: &mut R) -> f64 {
+        unit(rng)
     }
 }
 impl Standard for f32 {
-    fn standard() -> f32 {
-        let v = unit() as f32;
+    fn standard<R: RngCore + ?Sized>(rng: &mut R) -> f32 {
+        let v = unit(rng) as f32;
         if v >= 1.0 {
             0.99999994
         } else {
@@ -191,57 +229,263 @@ impl Standard for f32 {
     }
 }
 impl Standard for bool {
-    fn standard() -> bool {
-        unit() < 0.5
+    fn standard<R: RngCore + ?Sized>(rng: &mut R) -> bool {
+        unit(rng) < 0.5
     }
 }
 
 pub trait RngCore {
-    fn next_u32(&mut self) -> u32;
-    fn next_u64(&mut self) -> u64;
-}
-impl RngCore for ThreadRng {
     fn next_u32(&mut self) -> u32 {
-        <u32 as Standard>::standard()
+        <u32 as Standard>::standard(self)
     }
     fn next_u64(&mut self) -> u64 {
-        <u64 as Standard>::standard()
+        <u64 as Standard>::standard(self)
+    }
+    fn fill_bytes(&mut self, dest: &mut [u8]) {
+        for b in dest.iter_mut() {
+            *b = <u8 as Standard>::standard(self);
+        }
+    }
+    fn try_fill_bytes(&mut self, dest: &mut [u8]) -> Result<(), Error> {
+        self.fill_bytes(dest);
+        Ok(())
+    }
+    /// Where the next value comes from. Generators that stand for entropy (the thread-local
+    /// generator, the OS generator, anything seeded from them) hand the decision to the
+    /// simulator; generators seeded with a fixed value are deterministic by contract and use
+    /// their own stream.
+    #[doc(hidden)]
+    fn __outcome(&mut self) -> Outcome {
+        draw()
+    }
+    #[doc(hidden)]
+    fn __is_entropy(&self) -> bool {
+        true
+    }
+}
+impl RngCore for ThreadRng {}
+impl<R: RngCore + ?Sized> RngCore for &mut R {
+    fn __outcome(&mut self) -> Outcome {
+        (**self).__outcome()
+    }
+    fn __is_entropy(&self) -> bool {
+        (**self).__is_entropy()
+    }
+}
+impl<R: RngCore + ?Sized> RngCore for Box<R> {
+    fn __outcome(&mut self) -> Outcome {
+        (**self).__outcome()
+    }
+    fn __is_entropy(&self) -> bool {
+        (**self).__is_entropy()
+    }
+}
+
+/// Error type of fallible generators (never produced here).
+#[derive(Debug)]
+pub struct Error;
+impl std::fmt::Display for Error {
+    fn fmt(&self, f: &mut std::fmt::Formatter<'_>) -> std::fmt::Result {
+        f.write_str("random generator error")
+    }
+}
+impl std::error::Error for Error {}
+
+/// Marker kept for source compatibility.
+pub trait CryptoRng {}
+impl CryptoRng for ThreadRng {}
+
+/// A generator created from a seed: from a fixed seed it is deterministic (its own stream, the
+/// same for the same seed); from entropy or from another entropy-backed generator its values
+/// are the simulator's decision like the thread-local generator's.
+#[derive(Clone, Debug, PartialEq, Eq)]
+pub struct SeededRng {
+    state: Option<u64>,
+}
+impl SeededRng {
+    fn entropy() -> Self {
+        SeededRng { state: None }
+    }
+    fn fixed(seed: u64) -> Self {
+        SeededRng { state: Some(seed ^ 0x5EED_5EED_5EED_5EED) }
+    }
+}
+impl RngCore for SeededRng {
+    fn __outcome(&mut self) -> Outcome {
+        match &mut self.state {
+            None => draw(),
+            Some(s) => {
+                let z = simctx::splitmix64(s);
+                Outcome::U((z >> 11) as f64 / (1u64 << 53) as f64)
+            }
+        }
+    }
+    fn __is_entropy(&self) -> bool {
+        self.state.is_none()
+    }
+}
+
+pub trait SeedableRng: Sized {
+    type Seed: Default + AsMut<[u8]>;
+    fn from_seed(seed: Self::Seed) -> Self;
+    fn seed_from_u64(state: u64) -> Self;
+    /// rand 0.9 signature (0.8 took the generator by value and returned a Result)
+    fn from_rng(rng: &mut impl RngCore) -> Self;
+    fn try_from_rng<R: RngCore>(rng: &mut R) -> Result<Self, Error> {
+        Ok(Self::from_rng(rng))
+    }
+    /// rand 0.8 spelling of `from_os_rng`
+    fn from_entropy() -> Self;
+    fn from_os_rng() -> Self {
+        Self::from_entropy()
+    }
+    fn try_from_os_rng() -> Result<Self, Error> {
+        Ok(Self::from_entropy())
+    }
+}
+impl SeedableRng for SeededRng {
+    type Seed = [u8; 32];
+    fn from_seed(seed: [u8; 32]) -> Self {
+        let mut h = 0u64;
+        for c in seed.chunks(8) {
+            let mut w = [0u8; 8];
+            w[..c.len()].copy_from_slice(c);
+            h = simctx::mix(&[h, u64::from_le_bytes(w)]);
+        }
+        SeededRng::fixed(h)
+    }
+    fn seed_from_u64(state: u64) -> Self {
+        SeededRng::fixed(state)
+    }
+    fn from_rng(rng: &mut impl RngCore) -> Self {
+        // seeded from an entropy-backed generator = entropy; from a deterministic one = deterministic
+        if rng.__is_entropy() {
+            SeededRng::entropy()
+        } else {
+            SeededRng::fixed(rng.next_u64())
+        }
+    }
+    fn from_entropy() -> Self {
+        SeededRng::entropy()
     }
 }
 
 /// User-level generator interface (0.8 and 0.9 spellings).
 pub trait Rng: RngCore {
     fn gen_range<T, R: SampleRange<T>>(&mut self, range: R) -> T {
-        range.sample_single()
+        range.sample_single(self)
     }
     fn random_range<T, R: SampleRange<T>>(&mut self, range: R) -> T {
-        range.sample_single()
+        range.sample_single(self)
     }
     fn gen<T: Standard>(&mut self) -> T {
-        T::standard()
+        T::standard(self)
     }
     fn random<T: Standard>(&mut self) -> T {
-        T::standard()
+        T::standard(self)
     }
     fn gen_bool(&mut self, p: f64) -> bool {
         assert!((0.0..=1.0).contains(&p), "p={p} is outside range [0.0, 1.0]");
-        unit() < p
+        unit(self) < p
     }
     fn random_bool(&mut self, p: f64) -> bool {
         self.gen_bool(p)
+    }
+    fn gen_ratio(&mut self, numerator: u32, denominator: u32) -> bool {
+        assert!(denominator > 0 && numerator <= denominator);
+        unit(self) * (denominator as f64) < numerator as f64
+    }
+    fn sample<T, D: distributions::Distribution<T>>(&mut self, distr: D) -> T {
+        distr.sample(self)
+    }
+    fn fill<T: Standard>(&mut self, dest: &mut [T]) {
+        for d in dest.iter_mut() {
+            *d = T::standard(self);
+        }
     }
 }
 impl<R: RngCore + ?Sized> Rng for R {}
 
 pub fn random<T: Standard>() -> T {
-    T::standard()
+    T::standard(&mut thread_rng())
 }
 pub fn random_range<T, R: SampleRange<T>>(range: R) -> T {
-    range.sample_single()
+    range.sample_single(&mut thread_rng())
 }
 pub fn random_bool(p: f64) -> bool {
     thread_rng().gen_bool(p)
 }
+
+pub mod distributions {
+    use super::{RngCore, SampleRange, Standard as StandardValue};
+    pub trait Distribution<T> {
+        fn sample<R: RngCore + ?Sized>(&self, rng: &mut R) -> T;
+    }
+    impl<T, D: Distribution<T>> Distribution<T> for &D {
+        fn sample<R: RngCore + ?Sized>(&self, rng: &mut R) -> T {
+            (**self).sample(rng)
+        }
+    }
+    /// `rand::distributions::Standard` / `rand::distr::StandardUniform`
+    #[derive(Clone, Copy, Debug, Default)]
+    pub struct Standard;
+    pub use Standard as StandardUniform;
+    impl<T: StandardValue> Distribution<T> for Standard {
+        fn sample<R: RngCore + ?Sized>(&self, rng: &mut R) -> T {
+            T::standard(rng)
+        }
+    }
+    #[derive(Clone, Copy, Debug, PartialEq)]
+    pub struct Uniform<T> {
+        low: T,
+        high: T,
+        inclusive: bool,
+    }
+    impl<T: Copy + PartialOrd> Uniform<T> {
+        pub fn new(low: T, high: T) -> Uniform<T> {
+            assert!(low < high, "Uniform::new called with `low >= high`");
+            Uniform { low, high, inclusive: false }
+        }
+        pub fn new_inclusive(low: T, high: T) -> Uniform<T> {
+            assert!(low <= high, "Uniform::new_inclusive called with `low > high`");
+            Uniform { low, high, inclusive: true }
+        }
+    }
+    impl<T: Copy> Distribution<T> for Uniform<T>
+    where
+        std::ops::Range<T>: SampleRange<T>,
+        std::ops::RangeInclusive<T>: SampleRange<T>,
+    {
+        fn sample<R: RngCore + ?Sized>(&self, rng: &mut R) -> T {
+            if self.inclusive {
+                (self.low..=self.high).sample_single(rng)
+            } else {
+                (self.low..self.high).sample_single(rng)
+            }
+        }
+    }
+    #[derive(Clone, Copy, Debug, PartialEq)]
+    pub struct Bernoulli(f64);
+    impl Bernoulli {
+        pub fn new(p: f64) -> Result<Bernoulli, super::Error> {
+            if (0.0..=1.0).contains(&p) {
+                Ok(Bernoulli(p))
+            } else {
+                Err(super::Error)
+            }
+        }
+    }
+    impl Distribution<bool> for Bernoulli {
+        fn sample<R: RngCore + ?Sized>(&self, rng: &mut R) -> bool {
+            super::unit(rng) < self.0
+        }
+    }
+    pub mod uniform {
+        pub use super::super::SampleRange;
+        pub use super::Uniform;
+    }
+}
+pub use distributions as distr;
 
 pub mod seq {
     use super::Rng;
@@ -271,5 +515,7 @@ pub mod seq {
 
 pub mod prelude {
     pub use super::seq::SliceRandom;
-    pub use super::{random, rng, thread_rng, Rng, RngCore, ThreadRng};
+    pub use super::distributions::Distribution;
+    pub use super::rngs::{SmallRng, StdRng};
+    pub use super::{random, rng, thread_rng, CryptoRng, Rng, RngCore, SeedableRng, ThreadRng};
 }
